@@ -1,3 +1,4 @@
+import Cactus.Lemmas.Layout
 import Cactus.Lemmas.Basic
 import Cactus.Lemmas.Table
 /-!
@@ -52,5 +53,19 @@ example : reorder [7, 5] [{ vid := 5, held := [], weaks := [], script := [], pan
                          { vid := 7, held := [], weaks := [], script := [], panics := false }]
     = [{ vid := 7, held := [], weaks := [], script := [], panics := false },
        { vid := 5, held := [], weaks := [], script := [], panics := false }] := by decide
+
+
+/-! ## Decision-level layout independence (`Cactus.Lemmas.Layout`)
+
+Two states that differ only by a permutation of the entries inside link tables (and by the hint)
+take the same orphan decision at every drop, with the same member *set*; and for programs that
+record every stored handle (`Full`) the values of a collected group hold strong handles only to
+members of the group, so the one remaining layout dependence — the order in which the group's
+values are destroyed — only ever drops inert handles (C16).  Not proved: a step-level
+bisimulation up to permutation of the event log for whole histories (labelled partial). -/
+
+theorem C09_same_decision_under_every_layout : type_of% @cycleRefs_layout := @cycleRefs_layout
+theorem C09_same_members_under_every_layout : type_of% @group_members_layout := @group_members_layout
+theorem C09_full_group_holds_only_members : type_of% @full_group_closed := @full_group_closed
 
 end Cactus
